@@ -114,6 +114,34 @@ def build(case):
             q[vp] = p
             p, e = q, vp[e]
         return p, e, c
+    if f == "pendant":              # dangling edges stuck into a random subset of the (convex) faces
+        p, e, c = build(case["base"])
+        rng = np.random.default_rng([case["seed"], len(e), 11])
+        lat = Lattice(p, e, c)
+        newp, newe, newc = [], [], []
+        for pl in lat.plaquettes:
+            if rng.uniform() >= case.get("frac", 0.6):
+                continue
+            vec = lat.edges.vectors[pl.edges] * pl.directions[:, None]
+            cr = vec[:, 0] * np.roll(vec[:, 1], -1) - vec[:, 1] * np.roll(vec[:, 0], -1)
+            if not np.all(cr > 1e-9):
+                continue                      # only convex faces: the segment to the centroid stays inside
+            k = int(rng.integers(0, len(pl.vertices)))
+            pts = p[pl.vertices[0]] + np.concatenate([[[0.0, 0.0]], np.cumsum(vec, 0)[:-1]])
+            q = pts[k] + float(rng.choice([0.25, 0.4])) * (pl.center - pts[k])
+            # q is in the unwrapped frame of pts[0] = stored position of vertices[0]; the pendant leaves vertex
+            # vertices[k], whose stored position differs from pts[k] by an integer vector
+            shift = np.round(pts[k] - p[pl.vertices[k]])
+            q = q - shift
+            n = np.floor(q)
+            newp.append(q - n)
+            newe.append([int(pl.vertices[k]), len(p) + len(newp) - 1])
+            newc.append(n.astype(int))
+        if newp:
+            p = np.concatenate([p, np.array(newp)])
+            e = np.concatenate([e, np.array(newe, dtype=int)])
+            c = np.concatenate([c, np.array(newc, dtype=int)])
+        return p, e, c
     if f == "raw":
         return (np.array(case["positions"], dtype=float).reshape(-1, 2), np.array(case["edges"], dtype=int).reshape(-1, 2),
                 np.array(case["crossing"], dtype=int).reshape(-1, 2))
@@ -216,6 +244,13 @@ def lattice_cases(tier, seed, exhaustive=True):
         b = pool[int(rng.integers(0, len(pool)))]
         cases.append({"family": "relabel", "base": b, "seed": int(rng.integers(0, 2**31)),
                       "flip": float(rng.choice([0.2, 0.5, 1.0])), "vertices": bool(i % 2)})
+    # dangling edges inside faces (a face with a dangling tree is NOT a plaquette), relabelled: whether a neighbouring
+    # plaquette is found must not depend on which directed edge first discovers the rejected face
+    pbase = [c for c in cases if c["family"] in ("voronoi", "example", "cut", "dual") and c.get("n", 0) <= 40]
+    for i in range(min(len(pbase), 60 if tier == "quick" else 400) * 3):
+        b = pbase[int(rng.integers(0, len(pbase)))]
+        pc = {"family": "pendant", "base": b, "seed": int(rng.integers(0, 2**31)), "frac": float(rng.choice([0.5, 0.75, 0.9]))}
+        cases.append({"family": "relabel", "base": pc, "seed": int(rng.integers(0, 2**31)), "flip": 0.5, "vertices": False})
     if exhaustive:
         cases += exhaustive_subset_cases(ex_edges)
         # and relabelled edge subsets of the small bases (dangling edges inside faces, bridges, ...)
